@@ -1,6 +1,7 @@
 package main
 
 import (
+	"strings"
 	"fmt"
 	"go/types"
 )
@@ -25,7 +26,9 @@ func elemPrefix(t types.Type) string {
 	if n, ok := t.(*types.Named); ok {
 		return "ME_" + n.Obj().Name()
 	}
-	return "ME_" + sortTag(t.String())
+	// an unnamed element type (e.g. a pointer to a type of another package): its printed form has characters that
+	// are not legal in an SMT-LIB symbol
+	return "ME_" + strings.NewReplacer("*", "ptr_", "/", "_", ".", "_", "-", "_", "[", "_", "]", "_", " ", "", "(", "", ")", "", "{", "", "}", "", ",", "_", ";", "_").Replace(sortTag(t.String()))
 }
 
 // elemLeaves lists the leaf arrays of element type t under the given prefix ("" = plain scalar layout).
